@@ -251,7 +251,8 @@ class Ctx:
 
 class Explorer:
     def __init__(self, fn, init=None, on_event=None, on_edge=None, on_exit=None,
-                 calls=None, track=None, atom_key=None, cap=60000, entry_env=None, pure=()):
+                 calls=None, track=None, atom_key=None, cap=60000, entry_env=None, pure=(),
+                 on_transfer=None):
         """
         fn        Function
         init      initial user state (hashable)
@@ -274,6 +275,7 @@ class Explorer:
         self.cap = cap
         self.entry_env = entry_env or {}
         self.pure = set(pure)
+        self.on_transfer = on_transfer   # (user, from_bid, to_bid, ctx): every CFG edge taken
         self.reports = {}
         self.nstates = 0
         self.nedges = 0
@@ -645,6 +647,12 @@ class Explorer:
         return tuple(sorted(env.items(), key=repr))
 
     def _push(self, parent, bid, user, env, work):
+        if self.on_transfer is not None:
+            c = Ctx(self)
+            c.env = env
+            c.node = parent
+            c.bid = parent[0]
+            self.on_transfer(user, parent[0], bid, c)
         node = (bid, user, self._freeze(env))
         self.nedges += 1
         if node in self.parent:
